@@ -354,3 +354,157 @@ Definition cert_check_crl (fetch : crl_fetch) (crl_parses crl_check_ok issuer_ma
     match find_revoked es serial with LNotFound => true | _ => false end
   | _ => false
   end.
+
+(* ------------------------------------------------------------------ Names (wave 5)
+   x509_name_add_* / x509_name_set compose an RDNSequence of single-attribute RDNs:
+   SET { SEQUENCE { OID type, DirectoryString value } }; x509_name_get_value_by_type walks it. *)
+Definition T_OID := 6.
+Inductive attr_type := AT_country | AT_state | AT_locality | AT_org | AT_org_unit | AT_common_name | AT_domain_component.
+Definition attr_oid (t : attr_type) : list N :=
+  match t with
+  | AT_country => [85; 4; 6] | AT_state => [85; 4; 8] | AT_locality => [85; 4; 7] | AT_org => [85; 4; 10]
+  | AT_org_unit => [85; 4; 11] | AT_common_name => [85; 4; 3]
+  | AT_domain_component => [9; 146; 38; 137; 147; 242; 44; 100; 1; 25]
+  end.
+Definition attr := (attr_type * N * list N)%type.            (* type, string tag, value octets *)
+
+(* x509_directory_name_check: TeletexString 20, PrintableString 19, UniversalString 28, UTF8String 12 without NUL; BMPString 30 even *)
+Definition directory_string_ok (tag : N) (v : list N) : bool :=
+  match v with
+  | [] => false
+  | _ =>
+    if (tag =? 12) || (tag =? 19) || (tag =? 20) || (tag =? 28) then negb (existsb (N.eqb 0) v)
+    else if tag =? 30 then N.even (len v)
+    else false
+  end.
+(* x509_attr_type_and_value_check: per-type string kind and length bounds; domainComponent has no entry (every call fails) *)
+Definition attr_ok (a : attr) : bool :=
+  let '(t, tag, v) := a in
+  match t with
+  | AT_country => (tag =? 19) && directory_string_ok tag v && (len v =? 2)
+  | AT_state | AT_locality => directory_string_ok tag v && (1 <=? len v) && (len v <=? 128)
+  | AT_org | AT_org_unit | AT_common_name => directory_string_ok tag v && (1 <=? len v) && (len v <=? 64)
+  | AT_domain_component => false
+  end.
+
+Definition rdn_enc (a : attr) : list N :=
+  let '(t, tag, v) := a in tlv T_SET (tlv T_SEQ (tlv T_OID (attr_oid t) ++ tlv tag v)).
+Definition name_enc (l : list attr) : list N := concat (map rdn_enc l).
+(* x509_name_add_rdn / x509_name_set: refuse the whole name if one attribute is refused *)
+Definition name_build (l : list attr) : option (list N) := if forallb attr_ok l then Some (name_enc l) else None.
+
+Definition attr_type_of_oid (o : list N) : option attr_type :=
+  if octets_eq o (attr_oid AT_country) then Some AT_country else if octets_eq o (attr_oid AT_state) then Some AT_state
+  else if octets_eq o (attr_oid AT_locality) then Some AT_locality else if octets_eq o (attr_oid AT_org) then Some AT_org
+  else if octets_eq o (attr_oid AT_org_unit) then Some AT_org_unit else if octets_eq o (attr_oid AT_common_name) then Some AT_common_name
+  else if octets_eq o (attr_oid AT_domain_component) then Some AT_domain_component else None.
+
+Definition atv_layout : list slot := [([T_OID], false); ([12; 19; 20; 28; 30; 22], false)].
+(* x509_rdn_from_der over the whole RDNSequence: one attribute per RDN *)
+Fixpoint name_dec (fuel : nat) (inp : list N) : option (list attr) :=
+  match fuel with
+  | O => None
+  | S f =>
+    match inp with
+    | [] => Some []
+    | _ =>
+      match tlv_dec inp with
+      | Some (t, c, rest) =>
+        if t =? T_SET then
+          match tlv_dec c with
+          | Some (t2, c2, []) =>
+            if t2 =? T_SEQ then
+              match dec_items atv_layout c2 with
+              | Some ([Some (_, o); Some (tag, v)], []) =>
+                match attr_type_of_oid o, name_dec f rest with
+                | Some ty, Some l => Some ((ty, tag, v) :: l)
+                | _, _ => None
+                end
+              | _ => None
+              end
+            else None
+          | _ => None
+          end
+        else None
+      | None => None
+      end
+    end
+  end.
+
+(* x509_name_get_value_by_type: the first attribute of that type *)
+Fixpoint name_get_value (l : list attr) (t : attr_type) : option (N * list N) :=
+  match l with
+  | [] => None
+  | (t', tag, v) :: r => if octets_eq (attr_oid t') (attr_oid t) then Some (tag, v) else name_get_value r t
+  end.
+
+(* x509_certs_get_cert_by_index / x509_certs_get_last / x509_certs_get_count over a list of parsed certificates
+   (None = x509_cert_from_der fails there) *)
+Fixpoint certs_by_index {A} (l : list (option A)) (i : nat) : found A :=
+  match l with
+  | [] => FNone
+  | None :: _ => FErr
+  | Some a :: r => match i with O => FHit a | S j => certs_by_index r j end
+  end.
+Fixpoint certs_last {A} (l : list (option A)) (acc : found A) : found A :=
+  match l with
+  | [] => acc
+  | None :: _ => FErr
+  | Some a :: r => certs_last r (FHit a)
+  end.
+
+(* x509_crl_check(crl, now): inner = outer algorithm, version v1 or v2, thisUpdate <= now < nextUpdate (if present),
+   and (x509_crl_exts_check) no critical extension at all while deltaCRLIndicator / issuingDistributionPoint must be critical *)
+Inductive crl_ext_kind := CE_delta_or_idp | CE_issuer_alt_name | CE_aki | CE_other.
+Definition crl_ext_ok (e : crl_ext_kind * Z) : bool :=
+  let '(k, critical) := e in
+  match k with
+  | CE_delta_or_idp => false                                   (* must be critical, and critical is refused *)
+  | _ => negb (critical =? 1)%Z
+  end.
+Definition crl_check (algs_agree : bool) (version this_update : Z) (next_update : option Z) (now : Z)
+           (exts : list (crl_ext_kind * Z)) : bool :=
+  algs_agree && ((version =? 0) || (version =? 1))%Z && (this_update <=? now)%Z
+  && match next_update with Some n => (now <? n)%Z | None => true end
+  && forallb crl_ext_ok exts.
+
+(* ------------------------------------------------------------------ GeneralName / GeneralNames (wave 5)
+   GeneralName ::= CHOICE { otherName [0], rfc822Name [1] IA5String, dNSName [2] IA5String, x400Address [3],
+   directoryName [4], ediPartyName [5], uniformResourceIdentifier [6] IA5String, iPAddress [7], registeredID [8] }.
+   x509_general_name_from_der expects the constructed form of the tag for choices 0, 3, 4, 5.  The tree as found writes
+   the primitive form for every choice ([fix_gn_tag] = false); repaired, the writer uses what the reader expects. *)
+Definition gn_constructed (choice : N) : bool := (choice =? 0) || (choice =? 3) || (choice =? 4) || (choice =? 5).
+Definition gn_tag (fix_gn_tag : bool) (choice : N) : N :=
+  if fix_gn_tag && gn_constructed choice then 160 + choice else 128 + choice.
+Definition ia5_ok (v : list N) : bool := forallb (fun c => c <? 128) v.
+(* x509_general_names_add_general_name: one more GeneralName appended; None = -1 *)
+Definition general_name_enc (fix_gn_tag : bool) (choice : N) (d : list N) : option (list N) :=
+  match d with
+  | [] => None
+  | _ =>
+    if 8 <? choice then None
+    else if ((choice =? 1) || (choice =? 2) || (choice =? 6)) && negb (ia5_ok d) then None
+    else Some (tlv (gn_tag fix_gn_tag choice) d)
+  end.
+(* x509_general_name_from_der *)
+Definition general_name_dec (inp : list N) : option (N * list N * list N) :=
+  match tlv_dec inp with
+  | Some (t, c, rest) =>
+    if (t =? 160) || (t =? 163) || (t =? 164) || (t =? 165) then Some (t - 160, c, rest)
+    else if (t =? 129) || (t =? 130) || (t =? 134) || (t =? 135) || (t =? 136) then Some (t - 128, c, rest)
+    else None
+  | None => None
+  end.
+(* x509_general_names_get_first / get_next: the first name of the wanted choice; None = a name in front does not parse *)
+Fixpoint general_names_find (fuel : nat) (inp : list N) (choice : N) : option (option (list N)) :=
+  match fuel with
+  | O => None
+  | S f =>
+    match inp with
+    | [] => Some None
+    | _ => match general_name_dec inp with
+           | Some (ch, c, rest) => if ch =? choice then Some (Some c) else general_names_find f rest choice
+           | None => None
+           end
+    end
+  end.
